@@ -301,8 +301,13 @@ class CaseTimeout(Exception):
     """A single case exceeded its generous wall-clock watchdog: inconclusive."""
 
 
+_ARMED = [False]
+
+
 def _alarm(signum, frame):          # pragma: no cover
-    raise CaseTimeout()
+    if _ARMED[0]:
+        _ARMED[0] = False
+        raise CaseTimeout()
 
 
 def run_one(mod, ctx: Ctx, name: str, idx: int) -> None:
@@ -318,6 +323,7 @@ def run_one(mod, ctx: Ctx, name: str, idx: int) -> None:
     except (ValueError, AttributeError):      # not in the main thread / no SIGALRM
         old = None
     try:
+        _ARMED[0] = old is not None
         g.fn(ctx, rng, idx)
     except CaseTimeout:
         ctx.harness_errors.append("watchdog: gen %s case %d exceeded %.0f s" % (name, idx, limit))
@@ -325,14 +331,13 @@ def run_one(mod, ctx: Ctx, name: str, idx: int) -> None:
         ctx.harness_errors.append("gen %s case %d: %s" % (
             name, idx, traceback.format_exc(limit=-5)))
     finally:
+        try:
+            _ARMED[0] = False
+        except CaseTimeout:         # fired exactly here: already disarmed by the handler
+            pass
         if old is not None:
-            for _ in range(3):      # the alarm may fire while it is being disarmed
-                try:
-                    signal.setitimer(signal.ITIMER_REAL, 0)
-                    signal.signal(signal.SIGALRM, old)
-                    break
-                except CaseTimeout:
-                    continue
+            signal.setitimer(signal.ITIMER_REAL, 0)
+            signal.signal(signal.SIGALRM, old)
     ctx.cases_run[name] = ctx.cases_run.get(name, 0) + 1
 
 
